@@ -120,59 +120,63 @@ class AcctSession:
         return ev
 
     # ---------------------------------------------------------------- observation
-    def _ids(self, objs):
-        return [self.ordinal.get(id(o), 0) for o in objs]
-
-    def _orders(self):
-        res = []
-        for o in self.orders:
-            q = abs(o.qty)
-            res.append({"sym": RSYM[o.symbol], "side": o.side, "typ": {v: k for k, v in TYP.items()}.get(o.type, o.type),
-                        "q": units(q, 1 if self.kind == "futures" else self.K), "p": units(o.price, 1),
-                        "ro": bool(o.reduce_only), "st": ST.get(str(o.status).upper(), str(o.status))})
-        return res
-
     def snapshot(self):
-        import jesse.helpers as jh
-        st = self.store
-        e = self.exchange
-        d = {"ord": self._orders(), "pending": self._ids(st.orders.to_execute)}
-        d["trades"] = [self._ids(t.orders) for t in st.completed_trades.trades]
-        d["alist"], d["areported"], d["acount"], d["temp"], d["cur"] = {}, {}, {}, {}, {}
-        for s in self.syms:
+        return snapshot_from_store(self.kind, self.ex, self.syms, self.K, self.orders, self.ordinal)
+
+
+def snapshot_from_store(kind, ex, syms, K, orders, ordinal):
+    """the projected state of a session read from jesse's store (object-level sessions and real backtests alike):
+    order records in creation order, registries as ordinals, balances / position / tables as exact encodings"""
+    import jesse.helpers as jh
+    from jesse.store import store as st
+    e = st.exchanges.storage[ex]
+    pos = {s: st.positions.storage["%s-%s" % (ex, SYM[s])] for s in syms}
+    rtyp = {v: k for k, v in TYP.items()}
+
+    def ids(objs):
+        return [ordinal.get(id(o), 0) for o in objs]
+
+    off = []
+    d = {"ord": [{"sym": RSYM.get(o.symbol, o.symbol), "side": o.side, "typ": rtyp.get(o.type, o.type),
+                  "q": units(abs(o.qty), 1 if kind == "futures" else K, off, "order-qty"),
+                  "p": units(o.price, 1, off, "order-price"),
+                  "ro": bool(o.reduce_only), "st": ST.get(str(o.status).upper(), str(o.status))} for o in orders],
+         "pending": ids(st.orders.to_execute)}
+    d["trades"] = [ids(t.orders) for t in st.completed_trades.trades]
+    d["alist"], d["areported"], d["acount"], d["temp"], d["cur"] = {}, {}, {}, {}, {}
+    for s in syms:
+        sym = SYM[s]
+        raw = list(st.orders.get_active_orders(ex, sym))
+        d["alist"][s] = ids(raw)
+        d["areported"][s] = ids([o for o in raw if o.is_active])
+        d["acount"][s] = int(st.orders.count_active_orders(ex, sym))
+        t = st.completed_trades.tempt_trades.get(jh.key(ex, sym))
+        d["temp"][s] = ids(t.orders) if t is not None else []
+        d["cur"][s] = units(pos[s].current_price, 1, off, "current-price")
+    if kind == "futures":
+        d["off"] = off
+        d["wallet"] = rat(e.assets[e.settlement_currency])
+        d["margin"] = rat(e.available_margin)
+        d["pq"], d["entry"], d["pnl"], d["resB"], d["resS"] = {}, {}, {}, {}, {}
+        for s in syms:
+            p = pos[s]
+            b = jh.base_asset(SYM[s])
+            d["pq"][s] = units(p.qty, 1, off, "position-qty")
+            d["entry"][s] = rat(p.entry_price)
+            d["pnl"][s] = rat(p.pnl)
+            d["resB"][s] = [[units(abs(r[0]), 1), units(r[1], 1)] for r in e.buy_orders[b][:].tolist()]
+            d["resS"][s] = [[units(abs(r[0]), 1), units(r[1], 1)] for r in e.sell_orders[b][:].tolist()]
+    else:
+        d["quote"] = units(e.assets[e.settlement_currency], K * K, off, "quote")
+        d["base"], d["pos"], d["stopSum"], d["limitSum"] = {}, {}, {}, {}
+        for s in syms:
             sym = SYM[s]
-            raw = list(st.orders.get_active_orders(self.ex, sym))
-            d["alist"][s] = self._ids(raw)
-            d["areported"][s] = self._ids([o for o in raw if o.is_active])
-            d["acount"][s] = int(st.orders.count_active_orders(self.ex, sym))
-            t = st.completed_trades.tempt_trades.get(jh.key(self.ex, sym))
-            d["temp"][s] = self._ids(t.orders) if t is not None else []
-            d["cur"][s] = units(self.sess.pos[sym].current_price, 1)
-        if self.kind == "futures":
-            d["wallet"] = rat(e.assets[e.settlement_currency])
-            d["margin"] = rat(e.available_margin)
-            d["pq"], d["entry"], d["pnl"], d["resB"], d["resS"] = {}, {}, {}, {}, {}
-            for s in self.syms:
-                p = self.sess.pos[SYM[s]]
-                b = jh.base_asset(SYM[s])
-                d["pq"][s] = units(p.qty, 1)
-                d["entry"][s] = rat(p.entry_price)
-                d["pnl"][s] = rat(p.pnl)
-                d["resB"][s] = [[units(abs(r[0]), 1), units(r[1], 1)] for r in e.buy_orders[b][:].tolist()]
-                d["resS"][s] = [[units(abs(r[0]), 1), units(r[1], 1)] for r in e.sell_orders[b][:].tolist()]
-        else:
-            K = self.K
-            off = []
-            d["quote"] = units(e.assets[e.settlement_currency], K * K, off, "quote")
-            d["base"], d["pos"], d["stopSum"], d["limitSum"] = {}, {}, {}, {}
-            for s in self.syms:
-                sym = SYM[s]
-                d["base"][s] = units(e.assets[jh.base_asset(sym)], K, off, "base")
-                d["pos"][s] = units(self.sess.pos[sym].qty, K, off, "position")
-                d["stopSum"][s] = units(e.stop_orders_sum.get(sym, 0), K, off, "stop-sell-sum")
-                d["limitSum"][s] = units(e.limit_orders_sum.get(sym, 0), K, off, "limit-sell-sum")
-            d["off"] = off
-        return d
+            d["base"][s] = units(e.assets[jh.base_asset(sym)], K, off, "base")
+            d["pos"][s] = units(pos[s].qty, K, off, "position")
+            d["stopSum"][s] = units(e.stop_orders_sum.get(sym, 0), K, off, "stop-sell-sum")
+            d["limitSum"][s] = units(e.limit_orders_sum.get(sym, 0), K, off, "limit-sell-sum")
+        d["off"] = off
+    return d
 
 
 def _session(kind, hdr):
@@ -244,6 +248,10 @@ def replay_edges(kind, inst, edges, first_id=1, last_only=True, procs=12):
 # ------------------------------------------------------------------------------------------------
 # TLC side: configurations, edge export, trace validation grouped by configuration
 # ------------------------------------------------------------------------------------------------
+MAXJVM = 8          # concurrent trace-validation JVMs
+HEAP = "2g"
+
+
 def tla_set(xs):
     return "{" + ", ".join(('"%s"' % x) if isinstance(x, str) else str(x) for x in xs) + "}"
 
@@ -306,8 +314,23 @@ def validate(kind, traces, scratch, parts_total=14, timeout=1500, proj="acct"):
     module = "TraceFutures" if kind == "futures" else "TraceSpot"
     groups = {}
     for t in traces:
-        groups.setdefault(hdr_key(t["hdr"]), []).append(t)
-    verdicts, results = {}, []
+        evs = t["ev"]
+        if t["hdr"].get("haspre"):
+            # in-vivo: the pre-state of a call is usually the post-state of the previous one - then it is not repeated
+            evs, prev = [], t["init"]
+            for e in t["ev"]:
+                if e["pre"] == prev:
+                    e2 = {k: v for k, v in e.items() if k != "pre"}
+                    e2["sp"] = True
+                else:
+                    e2 = dict(e, sp=False)
+                evs.append(e2)
+                prev = e["post"]
+        groups.setdefault(hdr_key(t["hdr"]), []).append({"id": t["id"], "hdr": t["hdr"], "init": t["init"], "ev": evs})
+    # one single-worker TLC per (configuration, part); at most MAXJVM JVMs at a time, each with a small heap
+    # (the machine is shared: many 8g-heap JVMs side by side have been OOM-killed)
+    from .. import encode
+    from concurrent.futures import ThreadPoolExecutor
     total = max(1, len(traces))
     jobs = []
     for gi, (key, ts) in enumerate(sorted(groups.items(), key=lambda kv: str(kv[0]))):
@@ -317,18 +340,26 @@ def validate(kind, traces, scratch, parts_total=14, timeout=1500, proj="acct"):
         with open(cfgp, "w") as f:
             f.write(trace_cfg(kind, key, proj))
         parts = max(1, min(len(ts), int(round(parts_total * len(ts) / total)) or 1))
-        jobs.append((cfgp, ts, d, parts))
-    from concurrent.futures import ThreadPoolExecutor
-    with ThreadPoolExecutor(max_workers=10) as ex:
-        futs = [ex.submit(tlc.validate_traces, module, cfgp, ts, d, parts, None, timeout) for cfgp, ts, d, parts in jobs]
-        outs = [f.result() for f in futs]
-    knife = {}
-    for v, rs in outs:
-        verdicts.update(v)
-        results += rs
-        for r in rs:
-            for t in tlc.tagged(r, "KNIFE"):
-                knife.setdefault(t[1], []).append(t[2])
+        for pi in range(parts):
+            ch = ts[pi::parts]
+            pd = os.path.join(d, "p%d" % pi)
+            os.makedirs(pd, exist_ok=True)
+            path = os.path.join(pd, "traces.json")
+            encode.dump({"traces": ch}, path)
+            jobs.append(dict(module=module, cfg_file=cfgp, workers=1, env={"TRACE_FILE": path}, scratch=pd,
+                             timeout=timeout, allow_violation=False, heap=HEAP))
+    with ThreadPoolExecutor(max_workers=MAXJVM) as ex:
+        results = list(ex.map(lambda j: tlc.run(**j), jobs))
+    verdicts, knife = {}, {}
+    for r in results:
+        for t in tlc.tagged(r, "VERDICT"):
+            verdicts[t[1]] = tuple(t[2:])
+        for t in tlc.tagged(r, "KNIFE"):
+            knife.setdefault(t[1], []).append(t[2])
+    missing = [t["id"] for t in traces if t["id"] not in verdicts]
+    if missing:
+        raise Machinery("no verdict for %d traces (first ids %s) in %s\n%s" % (len(missing), missing[:5], module,
+                                                                            results[0].raw[-2000:]))
     return verdicts, results, knife
 
 
@@ -529,7 +560,7 @@ def word(tr):
 def ops_of(tr, upto=None):
     """driver operations of a recorded trace (for replay files)"""
     evs = tr["ev"] if upto is None else tr["ev"][:upto]
-    return [dict({k: v for k, v in e.items() if k not in ("k", "exc", "acc", "post", "rejexc")}, op=e["k"]) for e in evs]
+    return [dict({k: v for k, v in e.items() if k not in ("k", "exc", "acc", "post", "pre", "sp", "rejexc")}, op=e["k"]) for e in evs]
 
 
 def fill_kinds(kind, tr):
@@ -572,8 +603,11 @@ def report(ctx, pid, kind, traces, verdicts, proj, src, meta=None, report_known=
         v = verdicts[t["id"]]
         l, verdict = v[0], v[1]
         known = list(v[2]) if len(v) > 2 else []
-        full_ops = (hist_of(t) if hist_of else None) or ops_of(t)
+        full_ops = (hist_of(t) if hist_of else None) or ops_of(t, l if t["hdr"].get("judgeinit") else None)
         payload = {"kind": kind, "proj": proj, "hdr": t["hdr"], "ops": full_ops, "src": src}
+        if t.get("args"):
+            payload = {"kind": kind, "proj": proj, "vivo": t["args"], "src": "in-vivo backtest", "event": l,
+                       "last_events": ops_of(t, l)[-8:]}
         if verdict != "ok":
             bad += 1
             ctx.violation("%s %s %s" % (pid, kind, verdict),
